@@ -304,13 +304,23 @@ func (s *server) ModifyColumnFamilies(ctx context.Context, req *btapb.ModifyColu
 			delete(cfs, mod.Id)
 
 			// Purge all data for this column family
+			// Rows does not specify what happens if rows are deleted during
+			// iteration, so rows left without cells are removed afterwards.
+			var emptied []keyType
 			tbl.rows.Ascend(func(r *btpb.Row) bool {
 				r, changed := scrubRow(r, tbl.cols())
 				if changed {
-					tbl.rows.ReplaceOrInsert(r)
+					if len(r.Families) == 0 {
+						emptied = append(emptied, r.Key)
+					} else {
+						tbl.rows.ReplaceOrInsert(r)
+					}
 				}
 				return true
 			})
+			for _, k := range emptied {
+				tbl.rows.Delete(k)
+			}
 		} else if modify := mod.GetUpdate(); modify != nil {
 			cf, ok := cfs[mod.Id]
 			if !ok {
@@ -1275,8 +1285,7 @@ func (s *server) ReadModifyWriteRow(ctx context.Context, req *btpb.ReadModifyWri
 		resultCol.Cells = []*btpb.Cell{newCell}
 	}
 
-	r, _ = scrubRow(r, cols)
-	tbl.rows.ReplaceOrInsert(r)
+	tbl.updateRow(r)
 	resultRow, _ = scrubRow(resultRow, cols)
 	return &btpb.ReadModifyWriteRowResponse{Row: resultRow}, nil
 }
